@@ -35,7 +35,8 @@ ASSUMPTIONS = [
     "serial evaluation only (parallel completion orders are property C12); fresh Tabulator objects and no ibands "
     "(the module-level singletons of evaluate_k.available_quantities keep ibands between calls - recorded, not asserted)",
     "values: 1e-9 relative for energies against the explicit Fourier sum; 1e-7*scale*max(1,(1e-3/gap)^2) for "
-    "velocity/Berry curvature against the single-point evaluation (DESIGN 2.3); gap within 1e-9 of the degeneracy "
+    "velocity/Berry curvature against the single-point evaluation (DESIGN 2.3), scale = max-abs of the compared arrays "
+    "but not below 1e-6 natural units (cell length [x energy] resp. cell length^2); gap within 1e-9 of the degeneracy "
     "threshold 1e-4 -> tie",
 ]
 MIN_NONTRIVIAL = {"quick": 60, "thorough": 600}
@@ -379,7 +380,12 @@ def check_tabulate(case):
         single = np.array(single)
         if data.shape != single.shape:
             raise Violation("value-shape", f"{name}: {data.shape} expected {single.shape}")
-        scale = max(maxabs(single), maxabs(data), 1e-300)
+        # scale = size of the compared arrays, but never below the natural unit of the quantity (a quantity that
+        # vanishes identically, e.g. the internal Berry curvature of an effectively one-dimensional model, consists of
+        # rounding noise ~1e-17 on both sides; relative agreement of noise is not promised)
+        Lsc = abs(np.linalg.det(L)) ** (1.0 / 3)
+        unit = Lsc * max(1.0, maxabs(Eref)) if ("vel" in name or "gradients" in name or name == "energy") else Lsc ** 2
+        scale = max(maxabs(single), maxabs(data), 1e-6 * unit)
         for i in range(n):
             g = gaps[i][gaps[i] > 1e-4]
             gmin = g.min() if g.size else np.inf
